@@ -2,6 +2,8 @@ pub mod engine;
 pub mod world;
 pub mod props {
     pub mod c03;
+    pub mod c04;
+    pub mod c05;
     pub mod c12;
     pub mod c16;
     pub mod c17;
